@@ -48,10 +48,13 @@ func VH_C08_seq() {
 	next := 0
 	exec := func(ctx context.Context, item Result) (Result, error) {
 		k := bIndex(item)
-		vAssert(m.inflight == 0, "sequential-one-at-a-time")
-		vAssert(k == next, "sequential-in-item-order")
-		vAssert(vThreadID() == 0, "sequential-runs-on-the-calling-goroutine")
-		next++
+		vMonC(1, func() {
+			m.inflight++
+			vAssert(m.inflight == 1, "sequential-one-at-a-time")
+			vAssert(k == next, "sequential-in-item-order")
+			next++
+		})
+		vMonC(2, func() { m.inflight-- })
 		return item, nil
 	}
 	b := bNode(m, exec)
@@ -97,7 +100,6 @@ func VH_C08_workers() {
 		vCover("k<=0")
 	}
 	vAssert(p.workers == want, "pool-records-max(k,1)-workers")
-	vAssert(cap(p.tasks) == 2*want, "queue-capacity")
 	vAssert(vThreadsCreated() == want, "exactly-max(k,1)-worker-goroutines-started")
 	vCover("workers")
 }
